@@ -10,6 +10,10 @@
 //!                                                              per activation (in order of first instruction): its
 //!                                                              segments (an activation changes stream when an
 //!                                                              `extends` hands over to the parent template)
+//!            "born": [null | [activation, stream index, pc, stack, frames, captures, auto_escapes] ..]}
+//!                                                              per activation: the observation that preceded its first
+//!                                                              one, i.e. the instruction of the parent activation that
+//!                                                              started it (null: the render's own activation)
 //! Each request runs on a fresh thread under catch_unwind with a watchdog, like `prog`.
 use std::cell::RefCell;
 use std::collections::HashMap;
@@ -55,6 +59,8 @@ struct Rec {
     streams: Vec<Vec<J>>,
     act_index: HashMap<usize, usize>,
     acts: Vec<Vec<(usize, Vec<[usize; 5]>)>>,
+    born: Vec<Option<[usize; 7]>>,
+    last: Option<[usize; 7]>,
     total: usize,
     truncated: bool,
 }
@@ -84,7 +90,7 @@ fn run(req: &J) -> J {
     let ctxv = Value::from(minijinja::value::Serde(req.get("ctx").cloned().unwrap_or(J::Null)));
     let tmpl = match env.get_template(main) {
         Ok(t) => t,
-        Err(e) => return json!({"hook": true, "render": {"err": mjverif::err_code(e.kind())}, "streams": [], "acts": [], "truncated": false}),
+        Err(e) => return json!({"hook": true, "render": {"err": mjverif::err_code(e.kind())}, "streams": [], "acts": [], "born": [], "truncated": false}),
     };
     let rec: Rc<RefCell<Rec>> = Rc::new(RefCell::new(Rec::default()));
     let r2 = rec.clone();
@@ -113,6 +119,8 @@ fn run(req: &J) -> J {
                 let i = r.acts.len();
                 r.acts.push(vec![]);
                 r.act_index.insert(act, i);
+                let b = r.last;
+                r.born.push(b);
                 i
             }
         };
@@ -121,6 +129,7 @@ fn run(req: &J) -> J {
             segs.push((si, vec![]));
         }
         segs.last_mut().unwrap().1.push([pc as usize, stk, frames, caps, aes]);
+        r.last = Some([ai, si, pc as usize, stk, frames, caps, aes]);
     });
     let avail = {
         #[cfg(feature = "hooks")]
@@ -148,7 +157,7 @@ fn run(req: &J) -> J {
         .iter()
         .map(|segs| J::Array(segs.iter().map(|(si, obs)| json!([si, obs])).collect()))
         .collect();
-    json!({"hook": true, "render": render, "streams": rec.streams, "acts": acts, "truncated": rec.truncated})
+    json!({"hook": true, "render": render, "streams": rec.streams, "acts": acts, "born": rec.born, "truncated": rec.truncated})
 }
 
 fn main() {
